@@ -120,6 +120,10 @@ func classify(r any) string {
 	switch v := r.(type) {
 	case runtime.Error:
 		s := v.Error()
+		if contains(s, "called using nil") {
+			// Go's message for a value method reached through a nil pointer
+			return "rt:invalid memory address or nil pointer dereference"
+		}
 		for _, k := range rtClasses {
 			if contains(s, k) {
 				return "rt:" + k
